@@ -207,7 +207,9 @@ Definition sx_dmsg (m : DTLSMessage) : sx :=
   match m with
   | DMHandshake h =>
       C "Handshake" [SN (dhs_type h); SN (dhs_length h); SN (dhs_seq h); SN (dhs_frag_off h);
-                     SN (dhs_frag_len h); sx_dbody (dhs_body h)]
+                     SN (dhs_frag_len h); sx_dbody (dhs_body h);
+                     (* DTLSMessage::is_fragment() *)
+                     SA (str (match dhs_body h with DFragment _ => "is_fragment" | _ => "not_fragment" end))]
   | DMChangeCipherSpec => C "ChangeCipherSpec" []
   | DMAlert s c => C "Alert" [SN s; SN c]
   | DMApplicationData b => C "ApplicationData" [SS b]
